@@ -23,6 +23,7 @@ func CmdSearch(args []string, seed int64) int {
 	keep := fs.Int("keep", 20, "DAGs to keep (smallest first)")
 	maxEv := fs.Int("maxev", 60, "event budget per DAG")
 	sealCascade := fs.Bool("sealcascade", false, "two epochs, the application seals inside a cascade; the first epoch is dumped with its seal frame")
+	allowCrit := fs.Bool("allowcrit", false, "keep DAGs at which the generator instance reported a critical error (search against a modified library)")
 	out := fs.String("out", "found.ndjson", "output")
 	fs.Parse(args)
 	p, ok := profiles[*prof]
@@ -30,6 +31,7 @@ func CmdSearch(args []string, seed int64) int {
 		fmt.Fprintln(os.Stderr, "unknown profile")
 		return 2
 	}
+	KeepCritEvent = *allowCrit
 	type found struct {
 		n int
 		s string
@@ -50,7 +52,7 @@ func CmdSearch(args []string, seed int64) int {
 		}
 		rec := NewRecorder(ioutil.Discard)
 		sc := Generate(r, g, rec)
-		if rec.Stats[*want] == 0 || len(sc.Epochs) == 0 || sc.Epochs[0].Crit {
+		if rec.Stats[*want] == 0 || len(sc.Epochs) == 0 || (sc.Epochs[0].Crit && !*allowCrit) {
 			continue
 		}
 		ep := sc.Epochs[0]
